@@ -342,7 +342,15 @@ pub fn load_known(id: &str) -> Vec<Known> {
 
 /// Silence the default panic hook while exploring (panics are caught and reported as cases).
 pub fn quiet_panics() {
-    std::panic::set_hook(Box::new(|_| {}));
+    if std::env::var("MC_LOUD").is_ok() {
+        return;
+    }
+    // panics on the main thread (harness bugs) are still shown; worker panics are caught by `guard`
+    std::panic::set_hook(Box::new(|info| {
+        if std::thread::current().name() == Some("main") {
+            eprintln!("MACHINERY ERROR: harness panic on main thread: {info}");
+        }
+    }));
 }
 
 /// cartesian helper
